@@ -193,7 +193,10 @@ def run_chunk(job):
                 if pid.rsplit(".", 1)[1] in variants:
                     f.write("@@@ %s stack=3000 mem=20000\n%s" % (pid, src))
     t1 = time.time()
-    rc, out, err = common.sh([nevrun, "--timeout", str(timeout), "--batch", batch], timeout=3000, env=drv_env())
+    nprog = n * len(variants)
+    # the whole batch has a time budget too: a tree on which loops do not terminate any more must not
+    # stall the check (programs not reached are counted as skipped; what was seen is reported)
+    rc, out, err = common.sh([nevrun, "--timeout", str(timeout), "--batch", batch], timeout=40 + 0.25 * nprog, env=drv_env())
     trun = time.time() - t1
     real = parse_nevrun(out)
     res = compare_chunk(d, tag, real, variants)
@@ -222,7 +225,7 @@ def compare_chunk(d, tag, real, variants):
         return asts.get(cid, "")
 
     res = {"evaluations": 0, "cases": 0, "nontrivial_hashes": [], "c02": [], "c08": [], "crashes": [],
-           "rejected": [], "limits": 0, "harness": [], "samples": [], "agree": 0}
+           "rejected": [], "limits": 0, "harness": [], "samples": [], "agree": 0, "notrun": 0}
     for line in open(os.path.join(d, "expect_%s.tsv" % tag)):
         f = line.rstrip("\n").split("\t")
         if len(f) < 7:
@@ -234,7 +237,7 @@ def compare_chunk(d, tag, real, variants):
         exp = canon_expected(kind, printed)
         outs = {v: real.get("%s.%s" % (cid, v)) for v in variants}
         if any(o is None for o in outs.values()):
-            res["harness"].append({"case": cid, "what": "no nevrun block for some variant"})
+            res["notrun"] += 1
             continue
         res["cases"] += 1
         res["evaluations"] += len(variants)
@@ -439,7 +442,7 @@ def summarise_dist(d):
 
 
 def run_evaldiff(ctx, profiles, ncases, tier, on_crash=None, variants=("o", "u", "r"), overrides=(), nevrun=None,
-                 shrink_max=3, timeout=10, shrink_budget_s=45):
+                 shrink_max=3, timeout=4, shrink_budget_s=45):
     """Returns dict(c02=[...], c08=[...], crashes=[...], rejected=[...], harness=[...], evaluations,
     distinct_nontrivial, distribution (per profile), throughput...).  Reporting is left to the caller
     (checks/c02.py, checks/c08.py) except for nothing: this function does not touch ctx.violations."""
@@ -470,7 +473,7 @@ def run_evaldiff(ctx, profiles, ncases, tier, on_crash=None, variants=("o", "u",
         results = list(ex.map(run_chunk, jobs))
     wall = time.time() - t0
     out = {"c02": [], "c08": [], "crashes": [], "rejected": [], "harness": [], "errors": [], "evaluations": 0, "cases": 0,
-           "limits": 0, "agree": 0, "samples": [], "distribution": {}, "wall_s": round(wall, 2)}
+           "limits": 0, "agree": 0, "notrun": 0, "samples": [], "distribution": {}, "wall_s": round(wall, 2)}
     hashes = set()
     dist = {}
     for r in results:
@@ -479,7 +482,7 @@ def run_evaldiff(ctx, profiles, ncases, tier, on_crash=None, variants=("o", "u",
             continue
         for k in ("c02", "c08", "crashes", "rejected", "harness"):
             out[k].extend(r[k])
-        for k in ("evaluations", "cases", "limits", "agree"):
+        for k in ("evaluations", "cases", "limits", "agree", "notrun"):
             out[k] += r[k]
         hashes.update(r["nontrivial_hashes"])
         out["samples"].extend(r["samples"][:1])
